@@ -18,9 +18,10 @@ TYPES = {
     "Uint128": ("Uint128", [("Uint128::new(340282366920938463463374607431768211455u128)", '"340282366920938463463374607431768211455"'),
                             ("Uint128::new(5u128)", '"5"')]),
     "Binary": ("Binary", [('Binary::from(b"hi".to_vec())', '"aGk="'), ("Binary::default()", '""')]),
+    "U128": ("u128", [("18446744073709551617u128", '18446744073709551617'), ("5u128", '5')]),
 }
 # a JSON value of the wrong type for each argument type
-WRONG = {"u32": '"zz"', "String": "5", "bool": '"zz"', "OptU32": '"zz"', "VecString": "5", "Nested": "5", "Uint128": "true", "Binary": "5"}
+WRONG = {"u32": '"zz"', "String": "5", "bool": '"zz"', "OptU32": '"zz"', "VecString": "5", "Nested": "5", "Uint128": "true", "Binary": "5", "U128": "true"}
 
 CTX = {"exec": ("ExecCtx", "ctx_exec"), "query": ("QueryCtx", "ctx_query"), "sudo": ("SudoCtx", "ctx_sudo"),
        "instantiate": ("InstantiateCtx", "ctx_instantiate"), "migrate": ("MigrateCtx", "ctx_migrate")}
@@ -103,6 +104,8 @@ def handler_src(prog, part, m, in_trait):
     args = ", ".join('("%s", rec::enc(&%s))' % (a["n"], a["n"]) for a in m["args"])
     ok = "true" if m["outcome"] == "ok" else "false"
     mutc = "" if m["kind"] == "query" else "        rec::touch(ctx.deps.storage, \"%s\");\n" % m["name"]
+    if m["kind"] in ("exec", "instantiate"):
+        mutc += "        rec::touch_funds(ctx.deps.storage, &ctx.info.funds);\n"
     fin = (("rec::qresp_b" if ret == "QRespB" else "rec::qresp") if m["kind"] == "query" else "rec::resp") + '("%s", %d, %s)' % (m["name"], m["code"], ok)
     err = "HandlerErr" if part["id"] == "own" else "ContractError"   # interfaces share the contract's error type
     rty = ("QResultB<" + err + ">") if explicit else ("Result<%s, " % ret + err + ">")
